@@ -56,6 +56,7 @@
 #include <stdlib.h>
 #include <string.h>
 #include <inttypes.h>
+#include <sys/eventfd.h>
 
 static struct vh_rng *R;
 static uint64_t case_hash;
@@ -660,6 +661,20 @@ static void run_loop_some(struct st *s, unsigned max)
     if (n) VH_ADD("loop.dispatches", n);
 }
 
+/* pump of the (simulated) upstream source, handed over with every buffer to the
+ * pipes that may hold their input: they block it with upump blockers while
+ * they hold too much.  A watcher on a descriptor that never becomes readable:
+ * active unless blocked, never dispatched. */
+static struct upump *src_pump;
+static int src_fd = -1;
+static void src_pump_cb(struct upump *upump) { (void)upump; }
+static void src_pump_open(void)
+{
+    if (src_fd < 0) src_fd = eventfd(0, EFD_NONBLOCK);
+    src_pump = upump_alloc_fd_read(E.upump_mgr, src_pump_cb, NULL, NULL, src_fd);
+    if (src_pump) upump_start(src_pump);
+}
+
 static void ref_input(struct st *s, const uint8_t *b, size_t n);
 static void op_input(struct st *s)
 {
@@ -672,7 +687,10 @@ static void op_input(struct st *s)
     rec->connected = s->cur_out >= 0 && s->sink_accept[s->cur_out];
     rec->sink = s->cur_out >= 0 ? s->sink_ids[s->cur_out] : -1;
     if (mode == MODE_C14 && s->d->klass == K_REGROUP) ref_input(s, rec->bytes, rec->n);
-    upipe_input(s->pipe, u, NULL);
+    if (src_pump && mockloop_pump_active(src_pump)) VH_COUNT("src_pump.input_while_unblocked");
+    else if (src_pump) VH_COUNT("src_pump.input_while_blocked");
+    upipe_input(s->pipe, u, src_pump ? &src_pump : NULL);
+    if (src_pump && !mockloop_pump_active(src_pump)) VH_COUNT("src_pump.blocked_after_input");
     s->inputs++;
     VH_COUNT("op.input");
     switch (s->d->klass) {
@@ -1017,6 +1035,15 @@ static void teardown_and_account(struct st *s)
     for (int k = 0; k < 4; k++) if (s->sinks[k]) { upipe_release(s->sinks[k]); s->sinks[k] = NULL; }
     /* let pending pumps (deferred frees, idlers) run */
     mockloop_run(E.upump_mgr, R, 10000, 64);
+    if (src_pump) {
+        /* the pipe is gone: every blocker it put on the source pump must be gone too */
+        bool blocked = !mockloop_pump_active(src_pump);
+        upump_free(src_pump);
+        src_pump = NULL;
+        if (blocked) { char key[96]; snprintf(key, sizeof(key), "c01:%s:blocker-outlives-pipe", s->d->name);
+            vh_violation_noabort(key, "the source pump is still blocked after the pipe that blocked it was released: a upump blocker was neither freed nor notified"); }
+        VH_COUNT("src_pump.checked_at_teardown");
+    }
     uref_free(s->setattr_dict); s->setattr_dict = NULL;
 }
 
@@ -1056,6 +1083,8 @@ static void exec_history(uint64_t seed, bool getters, struct hist_out *out)
     upipe_mgr_release(mgr);
     if (!s->pipe) vh_violation("c04:alloc-failed", "allocation of %s failed", s->d->name);
     for (int k = 0; k < 4; k++) { char nm[16]; snprintf(nm, sizeof(nm), "sink%d", k); s->sinks[k] = lab_sink_new(nm, &s->sink_ids[k]); s->sink_accept[k] = true; }
+    src_pump = NULL;
+    if (s->d->needs_loop) src_pump_open();
     if (s->d->setup) s->d->setup(s);
     /* baseline of the numeric options: the documented defaults as reported right after allocation */
     for (int k = 0; k < s->d->nopts; k++) { uint64_t v = SENTINEL; s->d->opts[k].get(s->pipe, &v); s->optv[k] = v; }
